@@ -9,7 +9,7 @@ from .. import env
 from .. import gen, build, mcase
 
 ID = "C06"
-CASES = {"quick": 8000, "thorough": 200000}
+CASES = {"quick": 16000, "thorough": 200000}
 MIN_CASES_PER_SHARD = 40
 CASE_TIMEOUT = 40
 RULE = ("one case = generated map x trace x first-order configuration without width (all families; noise, obs_noise_ne, length factor, cut-offs "
